@@ -143,6 +143,39 @@ def gen_reads(rng, world, n):
         reads.append({"start": start, "cigar": cig, "seq": "".join(seq), "quals": quals,
                       "mapq": rng.choice(MAPQS), "flag": flag, "name": name,
                       "noqual": rng.random() < 0.03})
+    # fragments of two reads at a multi-nucleotide substitution or an insertion: one read covers the site, its
+    # mate ends inside the substitution / on or next to the base the insertion is anchored to (it cannot tell
+    # which allele the fragment carries there); what the fragment's record says must not depend on their order
+    special = [v for v in variants if v["kind"] in ("mnp", "ins")]
+    rng.shuffle(special)
+    for j, v in enumerate(special[:3]):
+        carries = rng.random() < 0.6
+        g_ = v["g"]
+
+        def mk(start_, end_):
+            """error-free read over [start_, end_] of the fragment's haplotype"""
+            seq_, cig_ = [], []
+            if v["kind"] == "mnp":
+                for p_ in range(start_, end_ + 1):
+                    k_ = p_ - g_
+                    seq_.append(v["alt"][k_] if carries and 0 <= k_ < len(v["alt"]) else contig[p_])
+                cig_ = [["M", end_ - start_ + 1]]
+            else:
+                if carries and start_ <= g_ < end_:
+                    seq_ = list(contig[start_:g_ + 1]) + list(v["alt"]) + list(contig[g_ + 1:end_ + 1])
+                    cig_ = [["M", g_ - start_ + 1], ["I", len(v["alt"])], ["M", end_ - g_]]
+                else:
+                    seq_ = list(contig[start_:end_ + 1])
+                    cig_ = [["M", end_ - start_ + 1]]
+            return {"start": start_, "cigar": cig_, "seq": "".join(seq_), "quals": [rng.choice(QUALS) for _ in seq_],
+                    "mapq": rng.choice(MAPQS), "flag": 0, "name": f"pair{j}", "noqual": False}
+
+        a_ = mk(g_ - rng.randint(20, 40), g_ + rng.randint(15, 40))
+        cut_end = g_ + rng.choice([-1, 0, 0, 1])
+        b_ = mk(cut_end - rng.randint(35, 60), cut_end)
+        for r_ in rng.sample([a_, b_], 2):
+            if 10 < r_["start"] and r_["start"] + 200 < len(contig):
+                reads.append(r_)
     # reads that enclose the whole gene region (one long deletion / one long match run)
     for j in range(rng.choice([0, 1, 2])):
         a0 = lo - rng.randint(5, 40)
@@ -403,6 +436,7 @@ def model(world, gene_obj, reads, lo, hi, multi_sites):
     # having shown it as far as it goes: whether such a read "covers" the site is not settled by the statement,
     # so an entry for it is neither required nor forbidden
     cut = defaultdict(set)
+    full = defaultdict(lambda: defaultdict(set))  # fragment -> pos -> alleles shown by reads not cut at pos
     stats = {"mnp_complete": 0, "mnp_partial": 0}
     phaseable = {p for p, _ in gene_obj.mutations}
     ins_anchors = {p for p, op in gene_obj.mutations if op.startswith("ins")}
@@ -449,8 +483,10 @@ def model(world, gene_obj, reads, lo, hi, multi_sites):
                 q += k
         # the read's last aligned base is the base a catalogued insertion is anchored to: the read cannot show
         # the insertion, whether it "covers" that variant site is not settled by the statement either
+        cut_here = set()
         if pos - 1 in ins_anchors and rshown.get(pos - 1) == {"_"}:
             cut[r["name"]].add(pos - 1)
+            cut_here.add(pos - 1)
         # multi-nucleotide substitutions: complete ones count once, at the first position
         for mpos, mop in multi_sites.items():
             l, rr = mop.split(">")
@@ -470,11 +506,15 @@ def model(world, gene_obj, reads, lo, hi, multi_sites):
                 stats["mnp_partial"] += 1
                 if mpos < pos < mpos + len(l) and all(c in have for c in comp if c[0] < pos):
                     cut[r["name"]].add(mpos)
+                    cut_here.add(mpos)
         for p, (op, bq) in subs.items():
             table[p][op][(mq, bin_q(bq))] += 1
         for p, al in rshown.items():
             shown[r["name"]][p] |= al
+            if p not in cut_here:
+                full[r["name"]][p] |= al
     model.cut = cut
+    model.full = full
     return table, shown, stats
 
 
@@ -611,6 +651,7 @@ def run_segment(seg):
         return (2 if r.get("unmapped") else (1 if r.get("other") else 0), r["start"])
 
     ref_obs = None
+    ref_phases, ref_delivery = None, None
     tables = {}
     for d in plan["deliveries"]:
         SIM.cfg.pop("stream", None)
@@ -641,7 +682,19 @@ def run_segment(seg):
         stats["deliveries"].append(d)
         multi_ops = set(multi_sites.values())
         stats["cells"] += compare(tab, obs, lo, hi, viol, d, multi_ops, bounds)
-        # phase records
+        # phase records: the same whatever the delivery (order, container, index, CIGAR run splitting)
+        # (where the reads of a fragment that cover a site completely all show one allele, the record must state
+        # that allele - in every delivery, whatever a mate that is cut at the site shows; where they disagree, or
+        # only cut reads reach the site, any allele one of them shows will do)
+        for frag, sites in model.full.items():
+            ph = s.phases.get(frag, {})
+            for p, alleles in sites.items():
+                m_alleles = {a for a in alleles if not a.startswith(("del", "ins"))}
+                if len(alleles) == 1 and len(m_alleles) == 1 and ph.get(p) != next(iter(m_alleles)):
+                    viol.append(_v("phase record does not state the allele the fragment's covering reads agree on",
+                                   delivery=d, fragment=frag, pos=p, expected=sorted(m_alleles), got=ph.get(p),
+                                   cut_mate=p in model.cut.get(frag, ())))
+                    break
         for frag, sites in shown.items():
             ph = s.phases.get(frag, {})
             for p, alleles in sites.items():
